@@ -117,6 +117,21 @@ func tokenBlockAt(toEquip bool, tok, idx int, last bool) ([10]byte, []byte) {
 	return h, []byte{0x21, 0x02, byte(tok >> 8), byte(tok)}
 }
 
+// phantomTok is the token of a block that is never sent: it only exists as bytes INSIDE the body of
+// real messages (after an ENQ), where a receiver that fails to listen the line silent after a
+// damaged transmission (E4 7.8.5) would find it.
+const phantomTok = 999
+
+// embeddingBody: [token item][FF FF][ENQ][a complete, checksum-valid block][EE EE EE]. A length
+// character lowered to (index of the ENQ - 3) makes the receiver read a frame that ends right
+// before the ENQ and whose checksum (FF FF) cannot match.
+func embeddingBody(toEquip bool, tok int) []byte {
+	ph, pb := tokenBlockAt(toEquip, phantomTok, 0, true)
+	body := []byte{0x21, 0x02, byte(tok >> 8), byte(tok), 0xFF, 0xFF, chENQ}
+	body = append(body, wireOf(ph, pb)...)
+	return append(body, 0xEE, 0xEE, 0xEE)
+}
+
 // ---------------------------------------------------------------------------------------------
 // The model's peer, written for this harness from Secs1/Line.v (phases, react, timeout).
 
@@ -193,9 +208,9 @@ func (p *simPeer) arrive(data []byte, peerToEquip bool) {
 		}
 	case phWaitEOT:
 		if isChar && data[0] == chEOT {
-			h, b := tokenBlock(peerToEquip, p.todo[0])
+			h, _ := tokenBlock(peerToEquip, p.todo[0])
 			p.ph = phWaitACK
-			p.push(wireOf(h, b)...)
+			p.push(wireOf(h, embeddingBody(peerToEquip, p.todo[0]))...)
 		} else if isChar && data[0] == chENQ && !p.master {
 			p.yields++
 			p.ph = phRecvYield
@@ -278,6 +293,8 @@ type simConn struct {
 	holdPeer bool // keep the peer's already written ENQ in flight until the real end has written
 	pFault   [3]int
 	peerStartAt time.Duration // virtual time at which an idle peer with a queued message starts; <0 never
+	tail     []byte        // the rest of a transmission whose length character was lowered: arrives after a pause < T1
+	tailAt   time.Duration
 	polling  bool          // the harness's idle-loop poll: its deadline expiries are idle ticks, not model timeouts
 	steps    int
 }
@@ -352,6 +369,37 @@ func (s *simConn) flushOne() {
 	out, f := s.through(d)
 	s.log = append(s.log, "L "+s.peerSide+" "+f)
 	s.rbuf = append(s.rbuf, out...)
+	// Fault class "length character lowered + the tail delayed by less than T1" (a block whose
+	// body embeds ENQ + a valid block): the receive procedure must reject the short frame and
+	// listen the line silent, swallowing the tail. One garbled transmission in the model.
+	if f == "garble" && len(d) > 1 && s.c.Rng.Intn(2) == 0 {
+		if at := embeddedAt(d); at > 0 {
+			first := append([]byte(nil), d[:at]...)
+			first[0] = byte(at - 3)
+			s.rbuf = append(s.rbuf[:len(s.rbuf)-len(out)], first...)
+			s.tail = append([]byte(nil), d[at:]...)
+			s.tailAt = s.now + time.Duration(1+s.c.Rng.Intn(450))*time.Millisecond // < T1
+			s.c.Count("U/fault=length-down+delayed-tail")
+		}
+	}
+}
+
+// embeddedAt finds an ENQ inside a block transmission that is followed by a checksum-valid block
+// and such that a frame cut right before it has a legal length and a failing checksum.
+func embeddedAt(w []byte) int {
+	for at := 13; at < len(w)-13; at++ {
+		if w[at] != chENQ || at-3 < 10 || at-3 >= int(w[0]) {
+			continue
+		}
+		if _, ok := recvBytes(w[at+1:]); !ok {
+			continue
+		}
+		short := append([]byte{byte(at - 3)}, w[1:at]...)
+		if _, ok := recvBytes(short); !ok {
+			return at
+		}
+	}
+	return -1
 }
 
 func (s *simConn) armPeer() {
@@ -394,6 +442,13 @@ func (s *simConn) Read(p []byte) (int, error) {
 			n := copy(p, s.rbuf)
 			s.rbuf = s.rbuf[n:]
 			return n, nil
+		}
+		if s.tail != nil && s.tailAt <= s.deadline { // still in flight ahead of anything written later
+			if s.tailAt > s.now {
+				s.now = s.tailAt
+			}
+			s.rbuf, s.tail = append(s.rbuf, s.tail...), nil
+			continue
 		}
 		if s.peer.ph == phDown {
 			return 0, errors.New("peer gave up: link down")
@@ -465,8 +520,10 @@ func unit(c *vh.Ctx) {
 			s.pFault = [3]int{6, 6, 0}
 		case 12, 13, 14, 15, 16:
 			s.pFault = [3]int{15, 15, 0}
-		default:
+		case 17, 18:
 			s.pFault = [3]int{40, 15, 0}
+		default: // mostly garbled: the mutilated-block classes
+			s.pFault = [3]int{5, 40, 0}
 		}
 		s.realSide, s.peerSide = "B", "A"
 		if realMaster {
